@@ -303,6 +303,16 @@ theorem C01_utxos_ledger (es : List Event) (hc : ConsistentHistory {} es) :
   obtain ⟨l, h2, h3⟩ := utxos_refines hg
   exact ⟨s, l, h1, h2, h3⟩
 
+open Ledger in
+/-- **C01, outputs to watch on restart**: `OutputsToWatch` lists — each once — exactly the credited outputs of known
+transactions that no CONFIRMED transaction spends (leased ones and those spent by unconfirmed transactions included) -/
+theorem C01_watch_ledger (es : List Event) (hc : ConsistentHistory {} es) (now : Nat) :
+    ∃ s l, storeAfter Store.empty {} es = .ok s ∧ outputsToWatch s now = .ok l ∧
+      (l.map (·.op)).Perm (Ledger.watchSet (ledgerAfter {} es)) := by
+  obtain ⟨s, h1, hg, _⟩ := good_reachable es hc
+  obtain ⟨l, h2, h3⟩ := watch_refines hg now
+  exact ⟨s, l, h1, h2, h3⟩
+
 /-- non-vacuity of `C01_balance_ledger`: a chain-consistent history with a reorg — a coinbase `(1)` confirmed at height
 1, a payment `(2)` confirmed at height 2, a spender `(3)` of `(2,0)` seen unconfirmed, block 2 disconnected, `(2)`
 reconfirmed in another block 2, a lease, a clock move -/
